@@ -5,6 +5,8 @@ COMMON_TRUSTED = [
     "axioms: none (Print Assumptions under every property theorem must report 'Closed under the global context')",
     "hand-written Gallina model tied to /repo by the correspondence run (Go harness on go1.26.8, testing/synctest where a clock is involved)",
     "gen/ (Go AST reader) for the constants in coq/Gen/Generated.v",
+    "gen/translate.go (Go decision code -> Gallina, coq/Gen/GeneratedTr.v): conditions and branch structure translated semantically (integer conversions as identity, "
+    "== on interned strings / enums as integer equality), effect statements matched by text against a white list and interpreted by the model's own updates",
     "Go harness generators, fakes and interning; goccy/go-json, encoding/json, big.Int",
 ]
 
